@@ -6,7 +6,7 @@ import struct
 
 from ..astutil import attr_path, call_name, walk, src
 from ..bytelayout import flatten, show
-from ..codecs import class_const, datatype_classes, effective, reads, tokens_read, tokens_write, write_layout
+from ..codecs import class_const, datatype_classes, effective, reads, tokens_read, tokens_write, write_layout, zero_read_problems
 from ..consteval import UNKNOWN, ClassRef
 from ..framework import rule
 from ..linexpr import atom_name, cmp_norm, lin
@@ -439,3 +439,24 @@ def _stmt(n):
     while not isinstance(n, ast.stmt):
         n = getattr(n, "_parent")
     return n
+
+
+@rule(P, "D6.7", "T-DOM", floor=5)
+def d6_7(ctx):
+    """Empty values round-trip: a read whose size is a decoded count is guarded against count 0."""
+    strbase = ctx.model.cls(f"{DT}:StringDataType")
+    seen = set()
+    for c in datatype_classes(ctx):
+        if c.module.name == PCCC:
+            continue
+        dd, dfn = effective(ctx, c, "_decode")
+        if dfn is None or strbase not in c.mro() or c is strbase:
+            continue
+        if not isinstance(ctx.folder.class_attr(c, "len_type"), ClassRef) and c.name != "STRINGN":
+            continue
+        probs = zero_read_problems(ctx, c)
+        key = ckey(c.key, "empty-value")
+        if probs:
+            ctx.violation(key, probs[0][0], f"{c.name} (decoder {dd.name}._decode): {probs[0][1]}; decode(encode('')) fails")
+        else:
+            ctx.ok(key, dfn, f"{c.name}: a zero count returns the empty value without reading (decoder {dd.name}._decode)")
